@@ -137,6 +137,10 @@ def _worker_main(wfd, machine, libpath, indices, verif_seed, prop, opts):
         out.write(json.dumps({"t": "start", "i": idx}) + "\n")
         signal.setitimer(signal.ITIMER_REAL, per_run_timeout)
         t_run = time.time()
+        stall = os.environ.get("AWSIM_TEST_STALL")      # self-test of the watchdog path: "<index>:<flag file>" - the
+        if stall and stall.split(":")[0] == str(idx) and not os.path.exists(stall.split(":", 1)[1]):  # first execution
+            open(stall.split(":", 1)[1], "w").close()   # of that run loses its time slice (as under machine load)
+            time.sleep(per_run_timeout + 5)
         try:
             res = run_one(machine, node, verif_seed, prop, idx, opts)
         except Exception:
